@@ -159,6 +159,8 @@ public:
     // Computation
     Index compute(Index maxit = 1000, Scalar tol = 1e-10)
     {
+        // Invalidate the singular vectors cached from a previous compute()
+        m_evecs.resize(0, 0);
         m_eigs->init();
         m_nconv = m_eigs->compute(SortRule::LargestAlge, maxit, tol);
 
